@@ -74,6 +74,10 @@ class C07(HistoryCheck):
 
     def gen_spec(self, ctx):
         spec = gen_class_spec(ctx.src, self.PROFILE)
+        if (spec.get("sub") or {}).get("kind") == "spec" and ctx.src.chance(0.45):
+            # frozen declared only on a spec subclass: inherited (parent-declared) attributes and helpers then serve a
+            # frozen class although the class that declared them is not
+            ctx.case["frozen_class"] = "sub"
         return spec
 
     def drive(self, ctx):
@@ -184,6 +188,8 @@ def _frozen(spec, which):
     s = _copy.deepcopy(spec)
     if which == "host":
         s["host"]["options"]["frozen"] = True
+    elif which == "sub":
+        s["sub"].setdefault("options", {})["frozen"] = True
     else:
         s[which]["frozen"] = True
     return s
